@@ -1311,6 +1311,16 @@ def is_assoc_call(e):
     return strip_tmpl(e.get("callee") or "").rsplit("::", 1)[0] in ASSOC
 
 
+MULTI_ASSOC = ("std::unordered_multimap", "std::multimap", "std::unordered_multiset", "std::multiset")
+
+
+def is_unique_assoc_call(e):
+    """a member call on an associative container with unique keys: inserting an existing key leaves the container as it was (on a
+    multimap / multiset every insert adds an element, like an append)"""
+    c = strip_tmpl(e.get("callee") or "").rsplit("::", 1)[0]
+    return c in ASSOC and c not in MULTI_ASSOC
+
+
 def is_subscript_store(f, e):
     """`m[k] = v`: the operator[] call e is the target of an assignment (the only use of operator[] that overwrites)"""
     if e.get("op") != "[]" and not (e.get("callee") or "").endswith("operator[]"):
@@ -1664,3 +1674,90 @@ def no_stale_static_rule(ck, rid, basenames, what):
           ("%d functions in the closure, none keeps data in a static local" % n) if not stale else
           "static local `%s` of %s still holds what an earlier call left in it when it is used at %s" % (stale[0][1]["var"], stale[0][0].name, stale[0][2].loc),
           path=(stale[0][3] if stale else None))
+
+
+# ---------- virtual defaults that call each other ----------
+
+def virtual_default_cycles(prog, root_cls):
+    """[(class name, [method names], site)]: classes derived from `root_cls` in which a set of virtual methods, as virtual dispatch
+    resolves them for that class, call each other unconditionally on `this` (every non-throwing path of each implementation makes the
+    call): a call of any of them on an object of that class never returns.  The base class offers such pairs on purpose ("override
+    one of the two"); the rule is that every derived class does."""
+    root = strip_tmpl(root_cls)
+    rc = prog.cls(root)
+    vnames = [m["name"] for m in rc.get("methods", []) if m.get("virtual") and not m.get("pure") and not m["name"].startswith("~")]
+    if len(vnames) < 2:
+        return [], 0
+
+    def chain(cname):
+        """class names from cname up to root (single inheritance path through which root is reached)"""
+        c = None
+        for cc in prog.class_list:
+            if strip_tmpl(cc["name"]) == strip_tmpl(cname):
+                c = cc
+                break
+        if c is None:
+            return None
+        if strip_tmpl(c["name"]) == root:
+            return [c]
+        for b in c.get("bases", []):
+            if b.get("name"):
+                up = chain(b["name"])
+                if up is not None:
+                    return [c] + up
+        return None
+
+    def impl(ch, m):
+        for c in ch:
+            for mm in c.get("methods", []):
+                if mm["name"] == m and not mm.get("pure") and (mm.get("virtual") or strip_tmpl(c["name"]) == root):
+                    fs = prog.by_base.get(strip_tmpl(mm["q"]), [])
+                    return fs[0] if fs else None
+        return None
+
+    def must_call(f, m):
+        """f calls this->m (virtually) on every non-throwing path"""
+        def is_it(e):
+            return e["k"] == "call" and e.get("virt") and strip_tmpl(e.get("callee") or "").rsplit("::", 1)[-1] == m and \
+                ((e.get("recv") or {}).get("t") or "").strip() in ("this", "(*this)", "*this")
+        if not any(is_it(e) for e in f.events("call")):
+            return None
+        loose = [x for x in cfg.exits_without(f, is_it) if x.kind != "throw"]
+        if loose:
+            return None
+        return [e for e in f.events("call") if is_it(e)][0]
+
+    out = []
+    n = 0
+    for sub in sorted(prog.subclasses(root)):
+        ch = chain(sub)
+        if not ch:
+            continue
+        n += 1
+        edges = {}
+        for m in vnames:
+            f = impl(ch, m)
+            if f is None:
+                continue
+            for m2 in vnames:
+                if m2 != m:
+                    e = must_call(f, m2)
+                    if e is not None:
+                        edges.setdefault(m, []).append((m2, e))
+        # a cycle m -> ... -> m
+        for m in vnames:
+            seen, work = set(), [(m, [m])]
+            found = None
+            while work and not found:
+                x, path = work.pop()
+                for (y, e) in edges.get(x, []):
+                    if y == m:
+                        found = (path, e)
+                        break
+                    if y not in seen:
+                        seen.add(y)
+                        work.append((y, path + [y]))
+            if found:
+                out.append((ch[0]["name"], found[0], "%s:%s" % (ch[0].get("file"), ch[0].get("line"))))
+                break
+    return out, n
